@@ -373,7 +373,11 @@ CFG = {
              "Infinity spellings, short decimals, LONG zero-padded texts; or x**y / Math.pow / **= on integer operands with bases at "
              "+-floor(2^(63/e))+-{0,1,2} and +-floor(2^(53/e))+-{0,1}, e in 0..70 (exact integer power, one rounding); or "
              "parseInt(s, radix) / parseFloat(s) on texts of 1..200 characters (zero padding, non-digit tails, every radix, 0x "
-             "prefixes) where value AND representation are compared.  non-trivial = some operand is outside [-300,300] integers or the case is a "
+             "prefixes) where value AND representation are compared; string cases also arrive as host-imported Go strings "
+             "(> 16 bytes, lazily scanned, converted first-thing; BOM/NEL/NBSP/LS/PS/Zs/U+180E/U+200B at the edges) and under any "
+             "unary operator/conversion (|0, at, slice end, Math.sign, typed-array store ...); element reads of Float32/64Array "
+             "holding arbitrary NaN bit patterns (written through integer views; index/at/iteration/Array.from/find/slice) must "
+             "yield THE canonical NaN (representation + Set/Map key observables); Number(BigInt).  non-trivial = some operand is outside [-300,300] integers or the case is a "
              "route/pair/string case; distinct = by hash of the case"),
     "theorem_names": [],   # filled below
     "allowed_axioms": [],
